@@ -6,6 +6,9 @@
 (* The behaviour is the file: each step appends one line                   *)
 (*   "cpp"   // c          "c"     /* c */          "blank"                *)
 (*   "decl"  a declaration "cdecl" /* c */ followed by a declaration       *)
+(*   "declt" an enumerator followed by // c  (enumerator lists only: there *)
+(*           the parser documents that a same-line comment belongs to the  *)
+(*           enumerator; the mechanism below is not claimed for "declt")   *)
 (* Reference (the documented rule, cppPreprocessor.cxx skip_cpp_comment /  *)
 (* get_comment_before): consecutive // lines form one block, every /* */   *)
 (* is a block of its own, a line without a comment ends a block; a block   *)
@@ -30,7 +33,7 @@ VARIABLES lines,    \* the file so far
 vars == <<lines, blocks, lastcpp, att, done>>
 
 N == Len(lines)
-IsDecl(k) == k \in {"decl", "cdecl"}
+IsDecl(k) == k \in {"decl", "cdecl", "declt"}
 
 \* ---- reference ---------------------------------------------------------------------------------
 RECURSIVE RunStart(_)
@@ -38,7 +41,7 @@ RECURSIVE RunStart(_)
 RunStart(j) == IF j > 1 /\ lines[j - 1] = "cpp" THEN RunStart(j - 1) ELSE j
 \* the comment lines attached to the declaration on line i
 RefAttach(i) ==
-  IF lines[i] = "cdecl" THEN {i}                              \* the comment on its own line precedes it immediately
+  IF lines[i] \in {"cdecl", "declt"} THEN {i}                  \* the comment on its own line belongs to it
   ELSE IF i = 1 THEN {}
   ELSE IF lines[i - 1] = "c" THEN {i - 1}
   ELSE IF lines[i - 1] = "cpp" THEN RunStart(i - 1)..(i - 1)
@@ -65,7 +68,9 @@ AddLine ==
   /\ ~done /\ N < MaxLen
   /\ \E k \in Kinds :
        LET n == N + 1
-           bs1 == IF k \in {"cpp", "c", "cdecl"} THEN LexComment(blocks, IF k = "cdecl" THEN "c" ELSE k, n) ELSE blocks
+           bs1 == IF k \in {"cpp", "c", "cdecl"} THEN LexComment(blocks, IF k = "cdecl" THEN "c" ELSE k, n)
+                  ELSE IF k = "declt" THEN Append(blocks, [first |-> n, last |-> n, cpp |-> TRUE, code |-> TRUE])
+                  ELSE blocks
            a == IF IsDecl(k) THEN Lookup(bs1, n) ELSE 0
            \* a declaration lexed on the last line of a block: the block is followed by code on its own line
            bs2 == IF k = "cdecl" THEN [bs1 EXCEPT ![Len(bs1)].code = TRUE] ELSE bs1 IN
@@ -73,7 +78,7 @@ AddLine ==
        /\ blocks' = bs2
        /\ att' = Append(att, a)
        \* skip_comment: any non-space character that is not a // comment clears the flag; blank lines do not
-       /\ lastcpp' = IF k = "cpp" THEN TRUE ELSE IF k = "blank" THEN lastcpp ELSE FALSE
+       /\ lastcpp' = IF k \in {"cpp", "declt"} THEN TRUE ELSE IF k = "blank" THEN lastcpp ELSE FALSE
   /\ UNCHANGED done
 
 Finish == ~done /\ N >= 1 /\ done' = TRUE /\ UNCHANGED <<lines, blocks, lastcpp, att>>
@@ -90,6 +95,6 @@ NoSharing == \A i, j \in DeclLines : i # j => MechAttach(i) \cap MechAttach(j) =
 RefNoSharing == \A i, j \in DeclLines : i # j => RefAttach(i) \cap RefAttach(j) = {}
 \* a comment is attached only to the declaration it immediately precedes
 Adjacent == \A i \in DeclLines : \A j \in MechAttach(i) :
-              /\ lines[j] \in {"cpp", "c", "cdecl"}
+              /\ lines[j] \in {"cpp", "c", "cdecl", "declt"}
               /\ j = i \/ (\A x \in j..(i - 1) : lines[x] \in {"cpp", "c"})
 =============================================================================
